@@ -26,7 +26,8 @@ type c14Server struct {
 	stopOnce sync.Once
 }
 
-var protoNames = map[int64]string{1: "proto-a", 2: "proto-b", 3: "proto-c"}
+// 4 is a fragment of 1: names are compared as whole tokens, never as substrings
+var protoNames = map[int64]string{1: "proto-a", 2: "proto-b", 3: "proto-c", 4: "proto"}
 
 func startC14Server(sup []int64, auth, check bool, originPolicy int64) *c14Server {
 	s := &c14Server{srv: ws.NewServer(), newC: map[string]int{}, msgs: map[string]int{}}
@@ -82,6 +83,12 @@ func (s *c14Server) dial(id string, req []int64, creds, origin int64) (code int6
 		h.Set("Authorization", "Basic "+base64.StdEncoding.EncodeToString([]byte("user:right")))
 	case 2:
 		h.Set("Authorization", "Basic "+base64.StdEncoding.EncodeToString([]byte("user:wrong")))
+	case 3: // blank password
+		h.Set("Authorization", "Basic "+base64.StdEncoding.EncodeToString([]byte("user:")))
+	case 4: // blank user
+		h.Set("Authorization", "Basic "+base64.StdEncoding.EncodeToString([]byte(":right")))
+	case 5: // both blank
+		h.Set("Authorization", "Basic "+base64.StdEncoding.EncodeToString([]byte(":")))
 	}
 	url := fmt.Sprintf("ws://127.0.0.1:%d/ws/%s", s.port, id)
 	switch origin {
@@ -126,7 +133,7 @@ func (s *c14Server) dial(id string, req []int64, creds, origin int64) (code int6
 }
 
 func c14Gen(cfg config, emit func(Case)) {
-	sups := [][]int64{{}, {1}, {2}, {1, 2}, {2, 1}}
+	sups := [][]int64{{}, {1}, {2}, {1, 2}, {2, 1}, {1, 4}, {4, 1}}
 	var reqs [][]int64
 	reqs = append(reqs, []int64{})
 	for a := int64(1); a <= 3; a++ {
@@ -134,6 +141,15 @@ func c14Gen(cfg config, emit func(Case)) {
 		for b := int64(1); b <= 3; b++ {
 			reqs = append(reqs, []int64{a, b})
 		}
+	}
+	reqs = append(reqs, []int64{4}, []int64{4, 1}, []int64{1, 4})
+	has := func(l []int64, x int64) bool {
+		for _, y := range l {
+			if y == x {
+				return true
+			}
+		}
+		return false
 	}
 	stride := 11
 	if cfg.thorough {
@@ -159,13 +175,18 @@ func c14Gen(cfg config, emit func(Case)) {
 					}
 					k := 0
 					for _, req := range reqs {
-						for creds := int64(0); creds < 3; creds++ {
+						for creds := int64(0); creds < 6; creds++ {
 							for idk := int64(1); idk <= 2; idk++ {
 								for origin := int64(0); origin < 3; origin++ {
 									for dup := int64(0); dup < 2; dup++ {
 										k++
 										n++
-										if (k+int(cfg.seed))%stride != 0 {
+										plain := idk == 1 && origin == 0 && dup == 0
+										if creds >= 3 && !(auth && plain && len(req) <= 1) {
+											continue // blank credentials: only where they decide the outcome
+										}
+										always := creds >= 3 || (plain && creds == 1 && has(sup, 4) && has(req, 4))
+										if !always && (k+int(cfg.seed))%stride != 0 {
 											continue
 										}
 										if dup == 1 && (resident == nil || idk == 2) {
